@@ -38,6 +38,11 @@ class Mod:
             self.tree = ast.parse(self.src, filename=rel)
         except SyntaxError as e:
             raise AnalysisError(f"cannot parse {rel}: {e}")
+        # renamed locals are alpha-renamed back to the names the rules know (lxs/names.py); resolution only, never a verdict
+        self.renames = []
+        if not os.environ.get("LXS_NO_RENAME"):
+            from . import names
+            self.renames = names.canonicalise(self.tree, rel)
         self.classes = {}
         self.functions = {}
         self.assigns = {}        # module-level NAME -> value node (last binding)
@@ -100,6 +105,41 @@ def unparse(node):
 def norm(node):
     """Normalised single-line text of a node (whitespace independent)."""
     return " ".join(unparse(node).split())
+
+
+_COMM = (ast.BitAnd, ast.BitOr, ast.BitXor, ast.Add, ast.Mult)
+
+
+def cnorm(node):
+    """norm() modulo commutativity/associativity of & | ^ + *: chains are flattened and their operands sorted by text.  For
+    comparisons between two expressions of the analysed source (twins, expected shapes) that must not depend on operand order."""
+    if isinstance(node, str):
+        try:
+            node = ast.parse(node, mode="eval").body
+        except SyntaxError:
+            return node
+
+    class T(ast.NodeTransformer):
+        def visit_BinOp(self, n):
+            self.generic_visit(n)
+            if not isinstance(n.op, _COMM):
+                return n
+            ops = []
+
+            def flat(x):
+                if isinstance(x, ast.BinOp) and type(x.op) is type(n.op):
+                    flat(x.left)
+                    flat(x.right)
+                else:
+                    ops.append(x)
+            flat(n)
+            ops.sort(key=lambda x: norm(x))
+            out = ops[0]
+            for x in ops[1:]:
+                out = ast.BinOp(left=out, op=n.op, right=x)
+            return out
+    import copy as _copy
+    return norm(ast.fix_missing_locations(T().visit(_copy.deepcopy(node))))
 
 
 def walk_no_nested(node):
@@ -217,6 +257,8 @@ class Ctx:
         if rel not in self._mods:
             self._mods[rel] = Mod(self.repo, rel, self.overlay.get(rel))
             self.analysed["files"].add(rel)
+            for sc, cur, rec in self._mods[rel].renames:
+                self.note(f"{rel}::{sc}: local `{cur}` is taken for `{rec}` (renamed; resolved by fingerprint, lxs/names.py)")
         return self._mods[rel]
 
     def exists(self, rel):
